@@ -34,11 +34,12 @@ def reply_events(reply):
 
 
 def explore_world(task):
-    version, order, dialog, exceptions, turns = task
+    version, order, dialog, exceptions, turns = task[:5]
+    library = len(task) > 5 and task[5] == "library"
     res = {"worlds": 1, "turns": 0, "conversations": 0, "rejections": 0, "rewrites": 0, "llm_calls": 0, "rail_calls": 0, "viol": []}
-    info0 = {"engine": "E3-world", "prop": "C01", "version": "2.x", "order": list(order), "dialog": dialog, "exceptions": exceptions}
+    info0 = {"engine": "E3-world", "prop": "C01", "version": "2.x", "order": list(order), "dialog": dialog, "exceptions": exceptions, "library_rails": library}
     try:
-        world = rw.v2_world(in_order=order, dialog=dialog, exceptions=exceptions)
+        world = rw.v2_world(in_order=order, dialog=dialog, exceptions=exceptions, library=library)
     except Exception as e:
         res["viol"].append(("world-rejected:v2", repr(e), info0))
         return res
@@ -67,7 +68,7 @@ def explore_world(task):
             info = dict(info0, history=hist + [step])
 
             def bad(sig, what):
-                res["viol"].append((f"{sig}:v2:{'dialog' if dialog else 'nodialog'}", what, info))
+                res["viol"].append((f"{sig}:v2:{'dialog' if dialog else 'nodialog'}{':library-rails' if library else ''}", what, info))
 
             if turn.exc is not None:
                 bad("generate-raised", f"{turn.exc!r}")
@@ -96,11 +97,11 @@ def explore_world(task):
                     bad("dialog-or-generation-after-rejection", f"rail {rejected_by} rejected but dialog action / LLM call ran ({len(dialog_steps)} / {len(turn.llm_calls)})")
                 if exceptions:
                     evs = [e for e in reply_events(turn.reply) if e.get("type") == "InputRailException"]
-                    if not evs or evs[0].get("message") != f"BLOCKED-{rejected_by}":
+                    if not evs or evs[0].get("message") != rw.v2_exc_message(rejected_by, library):
                         bad("reply-is-not-the-rail-exception", f"rail {rejected_by} rejected; response events {[e.get('type') for e in reply_events(turn.reply)]}, text {turn.text!r}")
                     if turn.text:
                         bad("text-despite-rail-exception", f"rail {rejected_by} raised its exception but the reply text is {turn.text!r}")
-                elif turn.text != f"REFUSED-{rejected_by}":
+                elif turn.text != rw.v2_refusal(rejected_by, library):
                     bad("reply-is-not-the-refusal", f"rail {rejected_by} rejected; reply {turn.text!r}")
             else:
                 if path != "hello" and not turn.llm_calls:
@@ -137,11 +138,15 @@ def tasks(tier):
                         continue
                     seen.add((order, dialog, exc))
                     out.append(("2.x", order, dialog, exc, turns))
+    # the shipped `self check input` rail (its action replaced by a stub)
+    for dialog in (False, True):
+        for exc in (False, True):
+            out.append(("2.x", ("in1",), dialog, exc, 2 if tier == "quick" else 3, "library"))
     return out
 
 
 def replay(rp):
-    world = rw.v2_world(in_order=tuple(rp["order"]), dialog=rp["dialog"], exceptions=rp["exceptions"])
+    world = rw.v2_world(in_order=tuple(rp["order"]), dialog=rp["dialog"], exceptions=rp["exceptions"], library=rp.get("library_rails", False))
     state = {}
     for step in rp["history"]:
         verdicts = {r: k for r, k in zip(rp["order"], step["outcome"])}
